@@ -1,7 +1,7 @@
 From Coq Require Import List Bool Ascii String ZArith Lia.
 Import ListNotations.
 From Lime Require Import Base.Str Base.Res Base.Json Codec.Types Codec.TextForms Codec.TextFormsFacts
-  Codec.Doc Codec.DocFacts Codec.Envelope Codec.EnvelopeFacts Codec.Eqb Corr.Codec Corr.C01.
+  Codec.Doc Codec.DocFacts Codec.Envelope Codec.EnvelopeFacts Codec.Eqb Codec.Registry Corr.Codec Corr.C01.
 Open Scope string_scope.
 
 Lemma model_typed_ok cx e :
@@ -20,10 +20,19 @@ Qed.
 Lemma parse_identity_noat s : has_char c_at (fst (parse_identity s)) = false /\ has_char c_at (snd (parse_identity s)) = false.
 Proof. unfold parse_identity. cbn. split; apply split_piece_nth. Qed.
 
+Lemma registry_model_ok ops : forall reg, registry_ok ops (rrun reg ops) reg = true.
+Proof.
+  induction ops as [|o r IH]; intros reg; cbn; [reflexivity|].
+  destruct o as [t|t j]; cbn; [apply IH|].
+  unfold lookup_kind. destruct (existsb (Nat.eqb t) reg) eqn:E; cbn.
+  - rewrite Nat.eqb_refl. cbn. apply IH.
+  - destruct j; cbn; apply IH.
+Qed.
+
 (* the model's own behaviour meets the property's check on every case *)
 Theorem model_meets_check c : check (model_case c) = true.
 Proof.
-  destruct c as [e uris oj ot oy ow|src n os ob|src nm dm os ob|src m os ob|s o b]; cbn [model_case check].
+  destruct c as [e uris oj ot oy ow|src n os ob|src nm dm os ob|src m os ob|s o b|ops k st]; cbn [model_case check].
   - set (cx := mk_cx uris). destruct (Nat.leb (edepth e) case_fuel) eqn:Hf.
     + apply Nat.leb_le in Hf. rewrite !andb_true_r.
       destruct (wf_env cx e) eqn:Hw.
@@ -49,4 +58,5 @@ Proof.
     + destruct m as [x|]; auto. destruct (wf_mt x) eqn:Hw; auto.
       rewrite parse_mt_str by exact Hw. cbn. apply mt_eqb_refl.
   - destruct o; cbn; auto. apply String.eqb_refl.
+  - rewrite registry_model_ok, andb_true_r. induction st as [|b st IH]; cbn; auto.
 Qed.
